@@ -496,8 +496,13 @@ func genSeq(prop string, seed uint64, run int, p seqProfile, av avoid) *Case {
 				pf.Holes = append(pf.Holes, uint32(b)<<14+16383)
 			}
 		}
-		if g.hasKey() {
-			pf.KeepFull, pf.Holes = nil, nil
+		if g.hasKey() && len(pf.KeepFull) > 0 && pf.KeepFull[0] != 0 {
+			// keyed rows are created by key operations at the lowest free offsets: only a full
+			// FIRST block pushes them beyond it
+			pf.KeepFull, pf.Holes = []int{0}, []uint32{uint32(r.Intn(1 << 14))}
+			if pf.Blocks > 2 {
+				pf.Blocks = 2
+			}
 		}
 		cs.Cfg.Prefill = pf
 	}
